@@ -20,3 +20,107 @@ theorem noFee_k (a rin rout : Nat) (h : amountOutNoFee a rin rout ≤ rout) :
   nlinarith
 
 end Mx.Pair
+
+namespace Mx.Pair
+
+/-- pro-rata mint never dilutes: with `L ≤ ⌊o₁S/r₁⌋` and `L ≤ ⌊o₂S/r₂⌋`,
+    `r₁r₂/S² ≤ (r₁+o₁)(r₂+o₂)/(S+L)²` (cross-multiplied) -/
+theorem addLiq_share (r1 r2 S o1 o2 L : Nat) (h1 : 0 < r1) (h2 : 0 < r2)
+    (hL1 : L ≤ o1 * S / r1) (hL2 : L ≤ o2 * S / r2) :
+    r1 * r2 * (S + L) ^ 2 ≤ (r1 + o1) * (r2 + o2) * S ^ 2 := by
+  have e1 : L * r1 ≤ o1 * S := (Nat.le_div_iff_mul_le h1).mp hL1
+  have e2 : L * r2 ≤ o2 * S := (Nat.le_div_iff_mul_le h2).mp hL2
+  have f1 : r1 * (S + L) ≤ (r1 + o1) * S := by nlinarith
+  have f2 : r2 * (S + L) ≤ (r2 + o2) * S := by nlinarith
+  calc r1 * r2 * (S + L) ^ 2 = (r1 * (S + L)) * (r2 * (S + L)) := by ring
+    _ ≤ ((r1 + o1) * S) * ((r2 + o2) * S) := Nat.mul_le_mul f1 f2
+    _ = (r1 + o1) * (r2 + o2) * S ^ 2 := by ring
+
+/-- floor payout never dilutes the remaining holders -/
+theorem removeLiq_share (r1 r2 S lp : Nat) (hS : 0 < S) (hlp : lp ≤ S) :
+    r1 * r2 * (S - lp) ^ 2 ≤ (r1 - lp * r1 / S) * (r2 - lp * r2 / S) * S ^ 2 := by
+  have e1 : lp * r1 / S * S ≤ lp * r1 := Nat.div_mul_le_self _ _
+  have e2 : lp * r2 / S * S ≤ lp * r2 := Nat.div_mul_le_self _ _
+  have g1 : lp * r1 / S ≤ r1 := by
+    apply Nat.div_le_of_le_mul; nlinarith
+  have g2 : lp * r2 / S ≤ r2 := by
+    apply Nat.div_le_of_le_mul; nlinarith
+  obtain ⟨t, rfl⟩ := Nat.exists_eq_add_of_le hlp
+  generalize lp * r1 / (lp + t) = x1 at *
+  generalize lp * r2 / (lp + t) = x2 at *
+  obtain ⟨y1, rfl⟩ := Nat.exists_eq_add_of_le g1
+  obtain ⟨y2, rfl⟩ := Nat.exists_eq_add_of_le g2
+  simp only [Nat.add_sub_cancel_left]
+  have f1 : (x1 + y1) * t ≤ y1 * (lp + t) := by nlinarith
+  have f2 : (x2 + y2) * t ≤ y2 * (lp + t) := by nlinarith
+  calc (x1 + y1) * (x2 + y2) * t ^ 2 = ((x1 + y1) * t) * ((x2 + y2) * t) := by ring
+    _ ≤ (y1 * (lp + t)) * (y2 * (lp + t)) := Nat.mul_le_mul f1 f2
+    _ = y1 * y2 * (lp + t) ^ 2 := by ring
+
+/-- adding then immediately removing the minted LP returns at most the deposit -/
+theorem add_remove_le (r S o L : Nat) (hr : 0 < r) (hL : L ≤ o * S / r) :
+    L * (r + o) / (S + L) ≤ o := by
+  have e : L * r ≤ o * S := (Nat.le_div_iff_mul_le hr).mp hL
+  by_cases h0 : S + L = 0
+  · simp [h0]
+  · apply Nat.div_le_of_le_mul
+    nlinarith
+
+/-- the fixed-output charge always buys the requested amount under the fixed-input rule -/
+theorem swapOut_sufficient (total out rin rout : Nat) (ht : total < M) (ho : out < rout) :
+    out ≤ amountOut total (amountIn total out rin rout) rin rout := by
+  unfold amountOut amountIn
+  have hd : 0 < (rout - out) * (M - total) := Nat.mul_pos (by omega) (by omega)
+  have hlt := Nat.lt_mul_div_succ (rin * out * M) hd
+  generalize rin * out * M / ((rout - out) * (M - total)) + 1 = ain at *
+  obtain ⟨t, rfl⟩ := Nat.exists_eq_add_of_lt ho
+  have e : out + t + 1 - out = t + 1 := by omega
+  rw [e] at hlt hd
+  generalize M - total = g at *
+  have hden : 0 < rin * M + ain * g := by
+    rcases Nat.eq_zero_or_pos (ain * g) with h | h
+    · have e2 : (t + 1) * g * ain = (t + 1) * (ain * g) := by ring
+      rw [e2, h] at hlt
+      simp at hlt
+    · omega
+  rw [Nat.le_div_iff_mul_le hden]
+  nlinarith
+
+/-- K never decreases on a fee-charging fixed-input swap: whatever part `fee ≤ a·total/M`
+    of the input is kept out of the reserve, the floor output keeps `rIn·rOut` from falling -/
+theorem swapIn_k (total a rin rout fee : Nat) (ht : total ≤ M) (hfee : fee * M ≤ a * total)
+    (ho : amountOut total a rin rout ≤ rout) :
+    rin * rout ≤ (rin + (a - fee)) * (rout - amountOut total a rin rout) := by
+  unfold amountOut at *
+  obtain ⟨g, hg⟩ : ∃ g, M = total + g := ⟨M - total, by omega⟩
+  have e : M - total = g := by omega
+  rw [e] at ho ⊢
+  have h1 := Nat.div_mul_le_self (a * g * rout) (rin * M + a * g)
+  generalize a * g * rout / (rin * M + a * g) = out at *
+  obtain ⟨t, rfl⟩ := Nat.exists_eq_add_of_le ho
+  rw [Nat.add_sub_cancel_left]
+  have hfa : fee ≤ a := by
+    by_contra hc
+    have : a * M < fee * M := by
+      apply Nat.mul_lt_mul_of_pos_right (by omega)
+      unfold M; decide
+    nlinarith
+  obtain ⟨b, rfl⟩ := Nat.exists_eq_add_of_le hfa
+  rw [Nat.add_sub_cancel_left]
+  -- out * (rin*M + (fee+b)*g) ≤ (fee+b)*g*(out+t)  and  fee*M ≤ (fee+b)*total, M = total+g
+  have hM : 0 < M := by unfold M; decide
+  have k1 : out * rin * M ≤ (fee + b) * g * t := by nlinarith [h1]
+  have k2 : fee * g ≤ b * total := by
+    rw [hg] at hfee
+    nlinarith [hfee]
+  have k3 : (fee + b) * g * t ≤ b * t * M := by
+    rw [hg]
+    nlinarith [Nat.mul_le_mul_right t k2]
+  have key : rin * out * M ≤ (b * t) * M := by
+    calc rin * out * M = out * rin * M := by ring
+      _ ≤ (fee + b) * g * t := k1
+      _ ≤ b * t * M := k3
+  have : rin * out ≤ b * t := Nat.le_of_mul_le_mul_right key hM
+  nlinarith
+
+end Mx.Pair
